@@ -98,7 +98,9 @@ impl ToTokens for DeriveInputShapeSet {
 
                             struct_check.check(struct_data)
                         }
-                        ::darling::export::syn::Data::Union(_) => unreachable!(),
+                        ::darling::export::syn::Data::Union(_) => {
+                            ::darling::export::Err(::darling::Error::unsupported_shape("union"))
+                        }
                     }
                 }
             }
